@@ -235,6 +235,26 @@ func C09(c *Ctx) {
 			}
 			// session hider
 			hiders := ci.may["session"]
+			if len(hiders) == 0 {
+				// a request built on its own exit of the expired branch: no hider is
+				// needed exactly where the request was found to have no session state
+				noState := func(f Fact) bool {
+					rel := f.Rel()
+					if rel.Op != token.EQL || !IsNilConst(rel.Y) {
+						return false
+					}
+					call, _ := CallOf(rel.X)
+					if call == nil || Callee(call) != fnCtxValue {
+						return false
+					}
+					k, isC := ConstStr(ctxKeyArg(call))
+					return isC && k == "session"
+				}
+				if def, isI := op.(ssa.Instruction); isI && def.Block() != nil && HasFact(FactsAtInstr(def), noState) {
+					r.Ok("C09.hide", name, "hider skipped only without state", posf(c, def), "this exit of the expired branch is taken only when the request has no session state")
+					continue
+				}
+			}
 			okH := len(hiders) > 0
 			for _, h := range hiders {
 				mi, isMI := h.(*ssa.MakeInterface)
